@@ -19,11 +19,18 @@ Oracle  :
                                                                      failed-line-missing:after-live-edit  (after an accepted live edit)
   (K) known-bad lines     a line that the text recogniser classifies as known-bad (unknown instruction, bad UOD /
                           interpreter / engine-command arguments, incomparable units, unknown tag, missing condition,
-                          missing macro, recursive macro) and that the engine reports started must, within WINDOW
+                          missing macro, recursive macro) and that the engine reports started (Watch/Alarm: whose interrupt
+                          registration - scope-start event - the listener saw) must, within WINDOW
                           undisturbed ticks, give Error + Paused with that line in failed_line_ids
                                                                      no-error-pause:<kind> / failed-line-missing:<kind>
                           undisturbed = no request of any kind between those ticks, every tick begins Running, no other
                           line failed first; disturbed windows are counted, not judged
+  (K2) all failing lines  the same lines, judged independently of other failures: once reported started, after 1 (instruction raises in
+                          its own visit) resp. 2 (Watch/Alarm condition, from its scope-start) further ticks in which the engine runs the interpreter - ticks
+                          spent Paused/Holding are waited through, so this covers several lines failing in ONE tick (interrupt bodies
+                          firing together) and a line failing after an Unpause without correction - the line is in failed_line_ids
+                                                                     failed-line-missing:<kind>
+                          dropped (counted) on edit / cancel / force / a block end / an error the engine attributes to no instruction
   (H) the pause holds     after (E), with no request of any kind and no timed Pause/Hold in the case, the run is still Paused
                           HOLD ticks later (a run that resumes by itself was not paused)   error-pause-not-held
   (R) responsiveness      bounded response after the campaign:
@@ -284,6 +291,7 @@ def judge(case, c: D.Campaign, viol, info):
     epoch = None
     open_exp: list = []     # [id, kind, reach_index]
     hold_watch: list = []   # [index of the error tick]
+    pend: dict = {}         # (K2) line id -> [kind, interpreter ticks left, -]
     all_texts = [l[1] for l in case["method"]]
     for i, r in enumerate(recs):
         if r.raised is not None:
@@ -346,16 +354,23 @@ def judge(case, c: D.Campaign, viol, info):
             continue
         if r.epoch != epoch:
             epoch, reached, open_exp = r.epoch, set(), []
+            pend.clear()
+        new_bad: list = []
         if r.gap and open_exp:
             info["window-disturbed"] = info.get("window-disturbed", 0) + len(open_exp)
             open_exp = []
         if not r.merged and r.ms_exc is None:
             texts = {l[0]: l[1] for l in r.lines}
+            registered = {e[3] for e in r.events if e[1] == "scope_start" and e[2] in ("Watch", "Alarm")}
             for lid in r.started + r.failed:
                 if lid in reached or lid not in texts:
                     continue
-                reached.add(lid)
                 kind = D.bad_kind(texts[lid], all_texts)
+                if _k2_class(kind, texts[lid]) == "condition" and lid not in r.failed and lid not in registered:
+                    # a Watch/Alarm evaluates its condition only after its interrupt has been registered (how long that takes after
+                    # 'started' depends on where the line sits): its clock starts with the scope-start event for that line
+                    continue
+                reached.add(lid)
                 if kind is None:
                     name = D.recursive_call(texts[lid])
                     if name is not None:
@@ -363,11 +378,48 @@ def judge(case, c: D.Campaign, viol, info):
                         if defs is not None and all(d in r.executed for d in defs):
                             kind = "recursive-macro"
                 if kind is not None:
+                    new_bad.append((lid, kind))
                     open_exp.append([lid, kind, i])
                     info["bad-reached"] = info.get("bad-reached", 0) + 1
                     info["bad-reached:" + kind] = 1
+        # (K2) every known-bad line ends up failed, also when several instructions fail in one tick or after an un-corrected Unpause
+        dropped = (any(g[0] in ("edit", "cancel", "force", "cancel-raised", "force-raised") for g in r.gap)
+                   or any(e[1] == "block_end" for e in r.events) or r.merged or r.ms_exc is not None
+                   or (errs and r.err_node is None and all(e[2] in ("InterpretationError", "InterpretationInternalError") for e in errs)))
+        if dropped:
+            if pend:
+                info["k2-dropped"] = info.get("k2-dropped", 0) + len(pend)
+            pend.clear()
+        elif r.interp_gate:
+            again = {e[3] for e in r.events if e[1] == "scope_start" and e[2] in ("Watch", "Alarm")}
+            for lid in list(pend):
+                kind, left, others = pend[lid]
+                if lid in again and lid not in r.failed:
+                    # the interrupt of this Watch/Alarm was registered anew (e.g. by a re-arming Alarm around it): a fresh handler replaces
+                    # the old one before it evaluated the condition, the clock starts again
+                    pend[lid][1] = DEADLINE["condition"]
+                    continue
+                if lid in r.failed:
+                    info["k2-confirmed"] = info.get("k2-confirmed", 0) + 1
+                    if len(r.failed) > 1:
+                        info["k2-confirmed-with-other-failed-lines"] = 1
+                    del pend[lid]
+                elif left <= 1:
+                    viol("failed-line-missing:%s" % kind, "line %r (%s) was reported started and the interpreter has run %d more tick(s) (no edit, cancel, "
+                         "force or block end in between), but at tick %d it is not in failed_line_ids %r (started %r; state %s, status %s)"
+                         % (texts_of(r, lid), kind, DEADLINE[_k2_class(kind, texts_of(r, lid))], r.no, r.failed, r.started, r.state, r.status))
+                    del pend[lid]
+                else:
+                    pend[lid][1] = left - 1
+        for lid, kind in new_bad:
+            if lid in r.started and lid not in r.failed and not dropped:
+                cls = _k2_class(kind, texts_of(r, lid))
+                if cls is not None:
+                    pend[lid] = [kind, DEADLINE[cls], None]
         for exp in list(open_exp):
             lid, kind, ri = exp
+            if ri != i and any(e[1] == "scope_start" and e[2] in ("Watch", "Alarm") and e[3] == lid for e in r.events):
+                exp[2] = ri = i      # interrupt registered anew: the window starts again
             if r.state == "Paused" and r.status == "Error" and lid in r.failed:
                 info["bad-confirmed"] = info.get("bad-confirmed", 0) + 1
                 info["bad-confirmed:" + kind] = 1
@@ -386,6 +438,23 @@ def judge(case, c: D.Campaign, viol, info):
                 viol("no-error-pause:%s" % kind, "line %r (%s) reported started at tick %d; %d undisturbed Running ticks later there is no "
                      "Error pause (state %s, status %s, failed %r)" % (texts_of(r, lid), kind, recs[ri].no, WINDOW, r.state, r.status, r.failed))
                 open_exp.remove(exp)
+
+
+# (K2) how many interpreter ticks after 'started' the concrete visit of a known-bad line raises at the latest:
+#   immediate  the visit method raises before its first yield: one tick after the generic 'started' step
+#   condition  Watch/Alarm, counted from the scope-start event of the line (interrupt registered): the handler starts in the same
+#              (registered by the main flow) or the next (registered inside an interrupt) interpreter tick and evaluates in the one after
+DEADLINE = {"immediate": 1, "condition": 2}
+
+
+def _k2_class(kind, text):
+    if kind in ("unknown-instruction", "bad-interpreter-args", "missing-macro", "recursive-macro"):
+        return "immediate"
+    if kind in ("incomparable-units", "missing-condition"):
+        return "condition"
+    if kind == "unknown-tag":
+        return "condition" if re.match(r" *(?:\d+(?:\.\d+)? )?(?:Watch|Alarm)", text or "") else "immediate"
+    return None      # command errors (bad-uod-args, bad-engine-args) are marked by the command manager: judged by (K) only
 
 
 def texts_of(r, lid):
@@ -424,8 +493,8 @@ def run_case(case):
 def check_case(case):
     if not D.valid(case):
         return []
-    if any("Boom" in l[1] for l in case["method"]):
-        return []
+    if any("Boom" in l[1] for l in case["method"]) or any(s[0] == "fault" for s in case["steps"]):
+        return []      # raising UOD callbacks are outside the stated domain
     return run_case(case)[0]
 
 
@@ -447,7 +516,7 @@ def shrink_hints(case):
         yield c2
 
 
-_CLASS_KEYS = ("raised", "errors", "error-with-stop", "error-with-unpause", "error-without-attributed-instruction", "error-in-injected-instruction", "failed-line-confirmed", "state-tags-simulated", "pause-held", "window-disturbed", "bad-reached", "bad-confirmed", "stop:ok",
+_CLASS_KEYS = ("k2-confirmed", "k2-confirmed-with-other-failed-lines", "k2-dropped", "raised", "errors", "error-with-stop", "error-with-unpause", "error-without-attributed-instruction", "error-in-injected-instruction", "failed-line-confirmed", "state-tags-simulated", "pause-held", "window-disturbed", "bad-reached", "bad-confirmed", "stop:ok",
                "stop:already-stopped", "fix:tail-ran", "fix:edit-refused", "fix:merge_method", "fix:set_method", "fix:skip:not-in-error-pause",
                "fix:skip:edited-or-injected", "fix:skip:no-failed-line", "method-state-raised")
 
